@@ -20,4 +20,40 @@ MergeSide(acc, new) ==      \* acc, new : [f : set of <<k,v>> records, fam : set
    bad |-> acc.bad \/ new.bad \/ \E a \in acc.f, b \in new.f : a.k = b.k /\ a.v # b.v]
 OneHandler(h, side) == [f |-> SideAssign(h, side), fam |-> SideFam(h, side), bad |-> \E a, b \in SideAssign(h, side) : a.k = b.k /\ a.v # b.v]
 EmptySide == [f |-> {}, fam |-> {}, bad |-> FALSE]
+
+(* Model instances as data (the merge laws of the statement, "per declared merger").  An instance is a record of five sequences of
+   [k, v] pairs, one per merger kind of its SET fields:
+     s  single-valued fields (default merger ForbidChange): v a string
+     c  Concat fields: v a sequence            u  Unite fields: v a sequence read as a set
+     m  Merge fields: v an instance            d  DictMerge(Merge()) fields: v a sequence of [k, v: instance]
+   MergeInst(a, b) = [bad, v]: bad iff somewhere a single-valued field is set to two different values; v the merged instance, in which
+   an unset field never overrides a set one, Concat keeps a's elements before b's, and keys of a precede new keys of b.                *)
+Keys(ps) == {ps[i].k : i \in DOMAIN ps}
+Get(ps, key) == ps[CHOOSE i \in DOMAIN ps : ps[i].k = key].v
+OnlyB(pa, pb) == SelectSeq(pb, LAMBDA p : p.k \notin Keys(pa))
+RECURSIVE MergeInst(_, _)
+RECURSIVE MergeDict(_, _)
+MergeDict(da, db) ==
+  LET both == [i \in DOMAIN da |-> IF da[i].k \in Keys(db) THEN [k |-> da[i].k, r |-> MergeInst(da[i].v, Get(db, da[i].k))]
+                                     ELSE [k |-> da[i].k, r |-> [bad |-> FALSE, v |-> da[i].v]]]
+  IN [bad |-> \E i \in DOMAIN both : both[i].r.bad,
+      v |-> [i \in DOMAIN both |-> [k |-> both[i].k, v |-> both[i].r.v]] \o OnlyB(da, db)]
+MergeInst(a, b) ==
+  LET sc == [i \in DOMAIN a.s |-> a.s[i]] \o OnlyB(a.s, b.s)
+      sbad == \E i \in DOMAIN a.s : a.s[i].k \in Keys(b.s) /\ Get(b.s, a.s[i].k) # a.s[i].v
+      cc == [i \in DOMAIN a.c |-> IF a.c[i].k \in Keys(b.c) THEN [k |-> a.c[i].k, v |-> a.c[i].v \o Get(b.c, a.c[i].k)] ELSE a.c[i]] \o OnlyB(a.c, b.c)
+      uu == [i \in DOMAIN a.u |-> IF a.u[i].k \in Keys(b.u) THEN [k |-> a.u[i].k, v |-> a.u[i].v \o Get(b.u, a.u[i].k)] ELSE a.u[i]] \o OnlyB(a.u, b.u)
+      mm == [i \in DOMAIN a.m |-> IF a.m[i].k \in Keys(b.m) THEN [k |-> a.m[i].k, r |-> MergeInst(a.m[i].v, Get(b.m, a.m[i].k))]
+                                    ELSE [k |-> a.m[i].k, r |-> [bad |-> FALSE, v |-> a.m[i].v]]]
+      dd == [i \in DOMAIN a.d |-> IF a.d[i].k \in Keys(b.d) THEN [k |-> a.d[i].k, r |-> MergeDict(a.d[i].v, Get(b.d, a.d[i].k))]
+                                    ELSE [k |-> a.d[i].k, r |-> [bad |-> FALSE, v |-> a.d[i].v]]]
+  IN [bad |-> sbad \/ (\E i \in DOMAIN mm : mm[i].r.bad) \/ (\E i \in DOMAIN dd : dd[i].r.bad),
+      v |-> [s |-> sc, c |-> cc, u |-> uu,
+             m |-> [i \in DOMAIN mm |-> [k |-> mm[i].k, v |-> mm[i].r.v]] \o OnlyB(a.m, b.m),
+             d |-> [i \in DOMAIN dd |-> [k |-> dd[i].k, v |-> dd[i].r.v]] \o OnlyB(a.d, b.d)]]
+\* equality of instances up to the order of fields / dictionary keys and the element order of Unite fields
+RECURSIVE NormI(_)
+NormI(x) == [s |-> {<<x.s[i].k, x.s[i].v>> : i \in DOMAIN x.s}, c |-> {<<x.c[i].k, x.c[i].v>> : i \in DOMAIN x.c},
+             u |-> {<<x.u[i].k, ToSet(x.u[i].v)>> : i \in DOMAIN x.u}, m |-> {<<x.m[i].k, NormI(x.m[i].v)>> : i \in DOMAIN x.m},
+             d |-> {<<x.d[i].k, {<<x.d[i].v[j].k, NormI(x.d[i].v[j].v)>> : j \in DOMAIN x.d[i].v}>> : i \in DOMAIN x.d}]
 =============================================================================
